@@ -319,17 +319,21 @@ Theorem C03_checking_outcomes :
      inp_equal sh (x_envc x) (canon (snapshot (xb x))) = true ->
        x_hash x' = Some sh /\
        (k = 2 -> c_state (xb x') = SS_CHECKING /\
-                 x_chk x' = Some (mkChk sh (x_envc x) (canon (snapshot (xb x))))) /\
+                 x_chk x' = Some (mkChk sh (x_envc x) (canon (snapshot (xb x))) (snapshot (xb x)))) /\
        (k = 3 -> c_state (xb x') = SS_PENDING /\ c_deferred (xb x') = validate_unchanged_deferred /\
                  x_chk x' = x_chk x /\ (validate_unchanged_deferred = false -> x' = x))).
 Proof. exact checking_outcomes. Qed.
 
-(* try_skip_job after the output hashing: SUCCEEDED iff not cancelled and the stored output
-   ingredients are the outputs as they are on disk now; a difference gives PENDING without hash. *)
+(* try_skip_job after the output hashing: SUCCEEDED iff not cancelled, the stored output
+   ingredients are the outputs as they are on disk now and (only when the source re-reads the input
+   records in that transaction: skip_rechecks_inputs, false for /repo d760e3e, finding D37) no input
+   record was overtaken; a different output digest gives PENDING without hash; an overtaken record
+   gives PENDING with the hash kept. *)
 Theorem C03_skip_outcomes :
   forall (x : xworld) (t : N) (cancel : bool) (k : chk),
     x_chk x = Some k ->
     let x' := fst (do_xchk x t cancel) in
+    let rc := rechecked skip_rechecks_inputs x k in
     x_chk x' = None /\ c_run (xb x') = c_run (xb x) /\
     (cancel = true ->
        c_state (xb x') = SS_FAILED /\ x_hash x' = None /\ snd (do_xchk x t cancel) = XRChk false /\
@@ -337,10 +341,13 @@ Theorem C03_skip_outcomes :
     (cancel = false -> pairs_eqb (sh_out (k_old k)) (out_ingredients x) = false ->
        c_state (xb x') = SS_PENDING /\ c_deferred (xb x') = false /\ c_dyn (xb x') = [] /\ x_hash x' = None /\
        snd (do_xchk x t cancel) = XRChk false) /\
-    (cancel = false -> pairs_eqb (sh_out (k_old k)) (out_ingredients x) = true ->
+    (cancel = false -> pairs_eqb (sh_out (k_old k)) (out_ingredients x) = true -> rc = true ->
+       c_state (xb x') = SS_PENDING /\ c_deferred (xb x') = false /\ x_hash x' = x_hash x /\
+       snd (do_xchk x t cancel) = XRChk false) /\
+    (cancel = false -> pairs_eqb (sh_out (k_old k)) (out_ingredients x) = true -> rc = false ->
        c_state (xb x') = SS_SUCCEEDED /\ snd (do_xchk x t cancel) = XRChk true /\
        x_hash x' = Some (mkSH (k_env k) (k_inp k) (sh_out (k_old k))) /\ bk (xb x') = bk (xb x)) /\
-    (c_state (xb x') = SS_SUCCEEDED -> cancel = false /\ sh_out (k_old k) = out_ingredients x).
+    (c_state (xb x') = SS_SUCCEEDED -> cancel = false /\ sh_out (k_old k) = out_ingredients x /\ rc = false).
 Proof. exact skip_outcomes. Qed.
 
 (* validate_dynamic_job, cancelled or not, whatever it finds: the command does not start, the step
@@ -422,29 +429,35 @@ Theorem C03_command_starts_only_without_hash :
     exists t, e = XTry t false /\ x_hash x = None /\ snd (do_try (xb x) t) = RTry true.
 Proof. exact command_starts_only_without_hash. Qed.
 
-(* NOT TRUE (finding C03-skip-window, the skip-path analogue of D19): the statement for the moment
-   the skip is RECORDED.  Between the hashing of the inputs and the transaction that records the
-   skip, the record of an input can be replaced (its producer is executed again: mark_step_pending
-   ignores a CHECKING step, and try_skip_job does not read the input records again). *)
+(* NOT TRUE of the code without a re-check of the input records (finding D37 / C03-skip-window, the
+   skip-path analogue of D19): the statement for the moment the skip is RECORDED.  Between the hashing
+   of the inputs and the transaction that records the skip, the record of an input can be replaced (its
+   producer is executed again: mark_step_pending ignores a CHECKING step, and try_skip_job does not read
+   the input records again).  do_xchk_gen false is try_skip_job without such a re-check; it IS do_xchk
+   as long as skip_rechecks_inputs = false (true of /repo d760e3e, see gen.golden/GenFresh.v). *)
 Definition C03_skip_record_full : Prop :=
   forall x0 t x1 mid t' x3,
     do_xtry x0 t false = (x1, XRTry 2 false) -> is_checking x1 = true ->
-    forallb xenv_only mid = true -> do_xchk (xrun mid x1) t' false = (x3, XRChk true) ->
-    forall sh f h, x_hash x3 = Some sh -> In (f, h) (sh_inp sh) ->
-      f_hash (files (xb x3) f) = h /\ disk (xb x3) f = h.
+    forallb xenv_only mid = true -> do_xchk_gen false (xrun mid x1) t' false = (x3, XRChk true) ->
+    forall sh f h, x_hash x3 = Some sh -> In (f, h) (sh_inp sh) -> f_hash (files (xb x3) f) = h.
 
 (* Witness: consumer 5 holds the hash ([(1,4)], [(9,7)]); input 1 is BUILT by step 8; while the
    outputs are hashed, step 8 runs again, rewrites the file (4 -> 7) and completes; the skip is
    recorded: SUCCEEDED, stored hash still lists (1,4), record and disk say 7.  Replayed on the real
-   Executor (WITNESS_SKIP_WINDOW) and through the real serve() (c03_sys.skip_window_system). *)
+   Executor (WITNESS_SKIP_WINDOW) and through the real serve() (c03_sys.skip_window_system).  Last
+   clause: once the source re-reads the records (proposed fix), the same history is not a skip. *)
 Theorem C03_skip_record_full_refuted_by_producer_rerun :
   let x1 := fst (do_xtry skipwin_x0 1 false) in
-  let x3 := fst (do_xchk (xrun skipwin_mid x1) 4 false) in
+  let x2 := xrun skipwin_mid x1 in
+  let x3 := fst (do_xchk_gen false x2 4 false) in
   do_xtry skipwin_x0 1 false = (x1, XRTry 2 false) /\ is_checking x1 = true /\
   forallb xenv_only skipwin_mid = true /\
-  snd (do_xchk (xrun skipwin_mid x1) 4 false) = XRChk true /\
+  snd (do_xchk_gen false x2 4 false) = XRChk true /\
   c_state (xb x3) = SS_SUCCEEDED /\ x_hash x3 = Some (mkSH 1 [(1, 4)] [(9, 7)]) /\
-  f_hash (files (xb x3) 1) = 7 /\ disk (xb x3) 1 = 7 /\ f_state (files (xb x3) 1) = FS_BUILT.
+  f_hash (files (xb x3) 1) = 7 /\ disk (xb x3) 1 = 7 /\ f_state (files (xb x3) 1) = FS_BUILT /\
+  (skip_rechecks_inputs = true ->
+     snd (do_xchk_gen true x2 4 false) = XRChk false /\
+     c_state (xb (fst (do_xchk_gen true x2 4 false))) = SS_PENDING).
 Proof. exact skip_record_refuted_by_producer_rerun. Qed.
 
 Theorem C03_skip_record_full_refuted : ~ C03_skip_record_full.
